@@ -87,6 +87,6 @@ package manifest
 // Extract of a directory: a stream is included only if it is the source path
 // itself or lies below it (path-component boundary), and it is renamed by
 // replacing exactly the source prefix.
-//@ func segmentedManifest.manifestTextForPath property C10,C17,C17 safety -bounds
+//@ func segmentedManifest.manifestTextForPath property C10,C17 safety -bounds
 //@   calls segmentedStream.normalizedText#2: requires k == srcpath || strings.HasPrefix(k, srcpath + "/")
 //@   calls segmentedStream.normalizedText#2: requires $0 == relocate + k[len(srcpath):]
